@@ -94,7 +94,14 @@ CaseParts(e) ==
         LET st == e.ranges[i][1]
             en == e.ranges[i][2]
         IN (0 <= st /\ st <= en /\ en <= L) => e.ranges[i][4] = visits(st, en),
-      "ForEachKmerOf: the call-backs are not exactly the valid windows of the range in increasing order">>
+      "ForEachKmerOf: the call-backs are not exactly the valid windows of the range in increasing order">>,
+    \* the sequence walked is an argument: another sequence than the indexed one is walked by its own length
+    <<\A i \in 1..Len(e.ranges2) :
+        LET st == e.ranges2[i][1]
+            en == e.ranges2[i][2]
+            v2 == IF e.tiny THEN DeclVisits(e.s2, kk, st, en) ELSE DeclVisitsC(WinCodes(e.s2, kk), kk, st, en)
+        IN (0 <= st /\ st <= en /\ en <= Len(e.s2)) => e.ranges2[i][4] = v2,
+      "ForEachKmerOf over another sequence than the indexed one: the call-backs are not exactly the valid windows of the range">>
   >>
 
 \* the second round of questions, presented as the first (the call-backs on sub-ranges are not repeated)
